@@ -3,6 +3,7 @@ from ..cfg import cfg_of
 from ..defuse import du_of, walk, peel, callee_name, fmt
 from ..conds import lits_of
 from ..callgraph import cg_of
+from ..roles import roles_of
 from ..common import arg_term, contains_call, field_path, MUTATORS
 from . import c02
 
@@ -22,6 +23,7 @@ TREE = "revisiontree::RevisionTree"
 
 
 def run(facts, res):
+    R = roles_of(facts)
     cg = cg_of(facts)
     res.rule("L1", "RevisionTree.revisions is mutated only by insert-if-absent, retain(!staging) and the per-entry flag reset")
     res.rule("L2", "derived state is recomputed from scratch after every batch of insertions, for all trees, before returning")
@@ -157,15 +159,8 @@ def run(facts, res):
                 continue
             n_ops += 1
             cfg = cfg_of(opb)
-            v_sites = [s for s in cg.sites[opb.path] if any(cg.reaches(t, "revisiontree::RevisionTree::validate") for t in s.closures)
-                       and s.callee is not None and s.callee.name in ("for_each", "try_for_each")]
-            whole = False
-            for s in v_sites:
-                recv = arg_term(opb, s.term, 0, 30)
-                names = [callee_name(x) for x in walk(recv) if x[0] == "call"]
-                if "values" in names and any(x[0] == "field" and x[2] == "documents" for x in walk(recv)) and \
-                        not (set(names) & {"take", "skip", "filter", "step_by", "take_while", "skip_while"}):
-                    whole = True
+            v_sites = [s for s in cg.sites[opb.path] if _revalidates_all(facts, cg, opb, s, 0)]
+            whole = bool(v_sites)
             ok = bool(v_sites) and whole and all(any(cfg.postdominates(vs.block, a.block) for vs in v_sites) for a in a_sites)
             res.instance("L2", "%s: validation of all trees post-dominates every application of remote changes: %s" % (opb.path, ok), opb.loc())
             if not ok:
@@ -236,7 +231,7 @@ def run(facts, res):
             if t.callee is not None and t.callee.target() == "melda::DeltaId::from":
                 a = arg_term(b, t, 0, 30)
                 names = [callee_name(x) for x in walk(a) if x[0] == "call"]
-                lists = [x for x in walk(a) if x[0] == "call" and callee_name(x) == "list_raw_items"]
+                lists = [x for x in walk(a) if x[0] == "call" and callee_name(x) == R.name("lister")]
                 if lists and de in [y[2] for y in walk(lists[0][2][1]) if y[0] == "const" and y[1] == "str"] and \
                         not (set(names) & {"take", "skip", "filter", "step_by", "take_while", "skip_while"}):
                     ok = True
@@ -249,3 +244,25 @@ def run(facts, res):
 def thorough(res):
     from .. import engine
     engine.sensitivity("C01", res)
+
+
+def _revalidates_all(facts, cg, body, site, depth):
+    """the call at `site` validates every tree of the whole document map: either a for_each over
+    documents.values() whose closure reaches RevisionTree::validate, or a call to a helper every normal return
+    of which lies behind such a site"""
+    V = "revisiontree::RevisionTree::validate"
+    if site.callee is not None and site.callee.name in ("for_each", "try_for_each") and any(cg.reaches(t, V) for t in site.closures):
+        recv = arg_term(body, site.term, 0, 30)
+        names = [callee_name(x) for x in walk(recv) if x[0] == "call"]
+        return "values" in names and any(x[0] == "field" and x[2] == "documents" for x in walk(recv)) and \
+            not (set(names) & {"take", "skip", "filter", "step_by", "take_while", "skip_while"})
+    if depth >= 2 or site.fanout:
+        return False
+    for t in site.targets:
+        if t.impl_adt != "melda::Melda" or not cg.reaches(t, V):
+            continue
+        tcfg = cfg_of(t)
+        inner = [s for s in cg.sites[t.path] if _revalidates_all(facts, cg, t, s, depth + 1)]
+        if inner and all(any(tcfg.dominates(s.block, e) for s in inner) for e in tcfg.exits):
+            return True
+    return False
